@@ -221,6 +221,77 @@ theorem DenseHashSet.mem_union (a b : List Nat) (x : Nat) :
     · rintro ((h | h) | h) <;> simp [h]
     · rintro (h | h | h) <;> simp [h]
 
+theorem DenseHashSet.insert_sorted (l : List Nat) (v : Nat) (h : l.Pairwise (· < ·)) :
+    (DenseHashSet.insert l v).Pairwise (· < ·) := by
+  induction l with
+  | nil => simp [DenseHashSet.insert]
+  | cons y ys ih =>
+    unfold DenseHashSet.insert
+    have hy := List.pairwise_cons.mp h
+    by_cases h1 : v < y
+    · simp only [h1, if_true]
+      refine List.pairwise_cons.mpr ⟨?_, h⟩
+      intro a ha
+      rcases List.mem_cons.mp ha with ha | ha
+      · subst ha; exact h1
+      · exact Nat.lt_trans h1 (hy.1 a ha)
+    · by_cases h2 : v = y
+      · subst h2; simp [h]
+      · have : (v == y) = false := by simp [h2]
+        simp only [h1, if_false, this, Bool.false_eq_true]
+        refine List.pairwise_cons.mpr ⟨?_, ih hy.2⟩
+        intro a ha
+        rcases (DenseHashSet.mem_insert ys v a).mp ha with ha | ha
+        · subst ha; omega
+        · exact hy.1 a ha
+
+theorem DenseHashSet.union_sorted (a b : List Nat) (h : a.Pairwise (· < ·)) :
+    (DenseHashSet.union a b).Pairwise (· < ·) := by
+  unfold DenseHashSet.union
+  induction b generalizing a with
+  | nil => simpa using h
+  | cons y ys ih => simp only [List.foldl_cons]; exact ih _ (DenseHashSet.insert_sorted a y h)
+
+theorem eq_of_sorted_of_mem_iff : ∀ (l1 l2 : List Nat), l1.Pairwise (· < ·) → l2.Pairwise (· < ·) →
+    (∀ x, x ∈ l1 ↔ x ∈ l2) → l1 = l2 := by
+  intro l1
+  induction l1 with
+  | nil =>
+    intro l2 _ _ h
+    cases l2 with
+    | nil => rfl
+    | cons b l2 => have := (h b).mpr (by simp); simp at this
+  | cons a l1 ih =>
+    intro l2 h1 h2 h
+    cases l2 with
+    | nil => have := (h a).mp (by simp); simp at this
+    | cons b l2 =>
+      have p1 := List.pairwise_cons.mp h1
+      have p2 := List.pairwise_cons.mp h2
+      have hab : a = b := by
+        have ha := (h a).mp (by simp)
+        have hb := (h b).mpr (by simp)
+        rcases List.mem_cons.mp ha with ha | ha
+        · exact ha
+        · rcases List.mem_cons.mp hb with hb | hb
+          · exact hb.symm
+          · have := p2.1 a ha; have := p1.1 b hb; omega
+      subst hab
+      congr 1
+      apply ih l2 p1.2 p2.2
+      intro x
+      constructor
+      · intro hx
+        have := (h x).mp (List.mem_cons_of_mem _ hx)
+        rcases List.mem_cons.mp this with h' | h'
+        · have := p1.1 x hx; omega
+        · exact h'
+      · intro hx
+        have := (h x).mpr (List.mem_cons_of_mem _ hx)
+        rcases List.mem_cons.mp this with h' | h'
+        · have := p2.1 x hx; omega
+        · exact h'
+
 /-! ## what a with-attributes pass adds to the context -/
 
 /-- the instruction at `addr` exists and matches; `b` is its branch -/
@@ -231,6 +302,7 @@ def Vm.HoldsAt (vm : Vm) (st : SelectorState) (name : Bytes) (m : AttributeMatch
 /-- `ctx'` is `ctx` plus the branches `P` -/
 structure Adds (ctx ctx' : ExecutionCtx) (P : ExecutionBranch → Prop) : Prop where
   frame : ctx'.SameFrame ctx
+  sorted : ctx.stackItem.matchedIds.Pairwise (· < ·) → ctx'.stackItem.matchedIds.Pairwise (· < ·)
   ids : ∀ i, i ∈ ctx'.stackItem.matchedIds ↔ i ∈ ctx.stackItem.matchedIds ∨ ∃ b, P b ∧ i ∈ b.matchedIds
   jumps : ctx.withContent = true → ∀ r, r ∈ ctx'.stackItem.jumps ↔
     r ∈ ctx.stackItem.jumps ∨ ∃ b, P b ∧ b.jumps = some r
@@ -238,12 +310,12 @@ structure Adds (ctx ctx' : ExecutionCtx) (P : ExecutionBranch → Prop) : Prop w
     r ∈ ctx.stackItem.hereditaryJumps ∨ ∃ b, P b ∧ b.hereditaryJumps = some r
 
 theorem Adds.refl (ctx : ExecutionCtx) : Adds ctx ctx (fun _ => False) :=
-  ⟨.rfl' _, by simp, by simp, by simp⟩
+  ⟨.rfl' _, id, by simp, by simp, by simp⟩
 
 theorem Adds.trans {c1 c2 c3 : ExecutionCtx} {P Q : ExecutionBranch → Prop} (h1 : Adds c1 c2 P) (h2 : Adds c2 c3 Q) :
     Adds c1 c3 (fun b => P b ∨ Q b) := by
   have hw : c2.withContent = c1.withContent := h1.frame.2.2.1
-  refine ⟨h2.frame.trans h1.frame, ?_, ?_, ?_⟩
+  refine ⟨h2.frame.trans h1.frame, fun h => h2.sorted (h1.sorted h), ?_, ?_, ?_⟩
   · intro i
     rw [h2.ids, h1.ids]
     constructor
@@ -285,7 +357,13 @@ theorem Adds.congr {c1 c2 : ExecutionCtx} {P Q : ExecutionBranch → Prop} (h : 
 
 theorem Adds.addBranch (ctx : ExecutionCtx) (b0 : ExecutionBranch) :
     Adds ctx (ctx.addExecutionBranch b0) (fun b => b = b0) := by
-  refine ⟨ExecutionCtx.sameFrame_add _ _, ?_, ?_, ?_⟩
+  refine ⟨ExecutionCtx.sameFrame_add _ _, ?_, ?_, ?_, ?_⟩
+  · intro hs
+    have : (ctx.addExecutionBranch b0).stackItem.matchedIds =
+        DenseHashSet.union ctx.stackItem.matchedIds b0.matchedIds := by
+      unfold ExecutionCtx.addExecutionBranch
+      cases ctx.withContent <;> cases b0.jumps <;> cases b0.hereditaryJumps <;> rfl
+    rw [this]; exact DenseHashSet.union_sorted _ _ hs
   · intro i
     unfold ExecutionCtx.addExecutionBranch
     have : ∀ (it : StackItem), (match b0.hereditaryJumps with
@@ -665,4 +743,377 @@ theorem StackInv.popUpTo_shape {s ts} (inv : StackInv s ts) (name : Bytes) {s' d
     · simp only [pure, Except.pure, Except.ok.injEq, Prod.mk.injEq] at h
       rw [← h.1]
       exact ⟨i, hi, rfl, rfl, by simp [h2, closeUpTo_eq_drop name ts.open i hf]⟩
+
+/-- The VM state mirrors the tree state *and* carries the program's denotation. -/
+structure SemInv (vm : Vm) (ts : TreeState) (nth : Bool) : Prop where
+  stack : StackInv vm.stack ts
+  items : AllSem vm.stack.items.reverse (ancActs vm.program nth ts.ancestors)
+  active : ActiveSem vm.stack.items vm.stack.activeHereditaryJumps
+  typed : vm.stack.typedChildCounters.isSome = nth
+
+theorem withChild_ancestors (ts : TreeState) (name : Bytes) :
+    (TreeState.withChild ts name).ancestors = ts.ancestors := by
+  unfold TreeState.withChild TreeState.ancestors
+  cases ts.open <;> rfl
+
+theorem incLast_jumps (l : List StackItem) :
+    (incLastChildCounter l).map (fun it => (it.jumps, it.hereditaryJumps)) =
+      l.map (fun it => (it.jumps, it.hereditaryJumps)) := by
+  rcases List.eq_nil_or_concat l with h | ⟨l', x, h⟩
+  · subst h; rfl
+  · subst h; simp [List.concat_eq_append, incLastChildCounter_concat]
+
+theorem AllSem.congr : ∀ {its its' : List StackItem} {Ss : List ActSet},
+    its.map (fun it => (it.jumps, it.hereditaryJumps)) = its'.map (fun it => (it.jumps, it.hereditaryJumps)) →
+    AllSem its Ss → AllSem its' Ss := by
+  intro its
+  induction its with
+  | nil => intro its' Ss h; cases its' <;> simp_all
+  | cons it its ih =>
+    intro its' Ss h hs
+    cases its' with
+    | nil => simp at h
+    | cons it' its' =>
+      cases Ss with
+      | nil => simp [AllSem] at hs
+      | cons S Ss =>
+        simp only [List.map_cons, List.cons.injEq, Prod.mk.injEq] at h
+        refine ⟨?_, ih h.2 hs.2⟩
+        unfold ItemSem
+        rw [← h.1.1, ← h.1.2]
+        exact hs.1
+
+theorem ActiveSem.congr {its its' : List StackItem} {active : List (AddressRange × Nat)}
+    (h : its.map (fun it => (it.jumps, it.hereditaryJumps)) = its'.map (fun it => (it.jumps, it.hereditaryJumps)))
+    (ha : ActiveSem its active) : ActiveSem its' active := by
+  have key : ∀ d : Nat, (its'[d]?).map StackItem.hereditaryJumps = (its[d]?).map StackItem.hereditaryJumps := by
+    intro d
+    have := congrArg (fun l => (l[d]?).map (·.2)) h
+    simp only [List.getElem?_map, Option.map_map] at this
+    exact this.symm
+  constructor
+  · intro r d hm
+    obtain ⟨⟨it, hit, hr⟩, hsh⟩ := ha.sound r d hm
+    have k := key d
+    rw [hit] at k
+    cases hit' : its'[d]? with
+    | none => rw [hit'] at k; simp at k
+    | some it' =>
+      rw [hit'] at k; simp at k
+      refine ⟨⟨it', rfl, by rw [k]; exact hr⟩, ?_⟩
+      intro d' it'' hd' hit''
+      have k' := key d'
+      rw [hit''] at k'
+      cases hi : its[d']? with
+      | none => rw [hi] at k'; simp at k'
+      | some i0 =>
+        rw [hi] at k'; simp at k'
+        rw [k']; exact hsh d' i0 hd' hi
+  · intro d it' hit' r hr
+    have k := key d
+    rw [hit'] at k
+    cases hi : its[d]? with
+    | none => rw [hi] at k; simp at k
+    | some i0 =>
+      rw [hi] at k; simp at k
+      exact ha.complete d i0 hi r (by rw [← k]; exact hr)
+
+theorem SemInv.init (prog : Program) (esi : Bool) :
+    SemInv ⟨prog, Stack.new prog.enableNthOfType, esi⟩ {} prog.enableNthOfType := by
+  refine ⟨StackInv.init _, by simp [Stack.new, TreeState.ancestors, ancActs, AllSem], ⟨?_, ?_⟩, ?_⟩
+  · intro r d h; simp [Stack.new] at h
+  · intro d it h; simp [Stack.new] at h
+  · cases prog.enableNthOfType <;> rfl
+
+theorem SemInv.buildState_eq {vm ts nth} (inv : SemInv vm ts nth) (t : StartTag) :
+    (vm.stack.addChild t.name).buildState t.name = stateOf nth (ts.elemFor t) := by
+  obtain ⟨h1, h2⟩ := inv.stack.buildState_addChild t.name
+  have hty := inv.typed
+  cases hb : (vm.stack.addChild t.name).buildState t.name with
+  | mk cum typed =>
+    rw [hb] at h1 h2
+    simp only at h1 h2
+    unfold stateOf
+    cases nth with
+    | true =>
+      have := h2 hty
+      simp [h1, this, Elem.childIndex, Elem.typeIndex, TreeState.elemFor]
+    | false =>
+      have hnone : vm.stack.typedChildCounters = none := by
+        cases h : vm.stack.typedChildCounters with
+        | none => rfl
+        | some m => rw [h] at hty; simp at hty
+      have : typed = none := by
+        have hb' := congrArg SelectorState.typed hb
+        simp only [Stack.buildState] at hb'
+        rw [← hb']
+        have : (vm.stack.addChild t.name).typedChildCounters = none := by
+          unfold Stack.addChild; split <;> simp [hnone]
+        rw [this]; rfl
+      simp [h1, this, Elem.childIndex, TreeState.elemFor]
+
+theorem parentJumps_sem {items : List StackItem} {Ss : List ActSet} (h : AllSem items.reverse Ss) (r : AddressRange) :
+    r ∈ (match items.getLast? with
+      | some parent => parent.jumps
+      | none => []) ↔
+    ∃ S, Ss.head? = some S ∧ ∃ a b, S a b ∧ b.jumps = some r := by
+  rw [← List.head?_reverse]
+  cases hr : items.reverse with
+  | nil =>
+    rw [hr] at h
+    cases Ss with
+    | nil => simp
+    | cons S Ss => simp [AllSem] at h
+  | cons it its =>
+    rw [hr] at h
+    cases Ss with
+    | nil => simp [AllSem] at h
+    | cons S Ss => simp [h.1.1 r]
+
+theorem getLast?_incLast_jumps (l : List StackItem) :
+    ((incLastChildCounter l).getLast?).map (·.jumps) = (l.getLast?).map (·.jumps) := by
+  rcases List.eq_nil_or_concat l with h | ⟨l', x, h⟩
+  · subst h; rfl
+  · subst h; simp [List.concat_eq_append, incLastChildCounter_concat]
+
+theorem addChild_parentJumps (vm : Vm) (name : Bytes) :
+    ({ vm with stack := vm.stack.addChild name } : Vm).parentJumps = vm.parentJumps := by
+  unfold Vm.parentJumps Stack.addChild
+  by_cases he : vm.stack.items.isEmpty = true
+  · simp only [he, if_true]
+  · simp only [he, if_false]
+    have := getLast?_incLast_jumps vm.stack.items
+    cases h1 : (incLastChildCounter vm.stack.items).getLast? <;> cases h2 : vm.stack.items.getLast? <;>
+      simp_all
+
+theorem addChild_active (s : Stack) (name : Bytes) :
+    (s.addChild name).activeHereditaryJumps = s.activeHereditaryJumps := by
+  unfold Stack.addChild; split <;> rfl
+
+theorem addChild_items_jumps (s : Stack) (name : Bytes) :
+    (s.addChild name).items.map (fun it => (it.jumps, it.hereditaryJumps)) =
+      s.items.map (fun it => (it.jumps, it.hereditaryJumps)) := by
+  unfold Stack.addChild
+  split
+  · rfl
+  · exact incLast_jumps _
+
+/-- A start tag reports exactly the ids of the instructions the denotation activates at the new
+    element, and the VM state keeps carrying the denotation. -/
+theorem SemInv.handleStartTag {vm vm' : Vm} {ts : TreeState} {nth : Bool} {t : StartTag} {ms}
+    (inv : SemInv vm ts nth) (h : vm.handleStartTag t = .ok (vm', ms)) :
+    (∀ i, i ∈ ms.map (·.matchId) ↔
+      ∃ a b, Act vm.program nth (ts.elemFor t) ts.ancestors a b ∧ i ∈ b.matchedIds) ∧
+    (ms.map (·.matchId)).Pairwise (· < ·) ∧
+    vm'.program = vm.program ∧ vm'.enableEsiTags = vm.enableEsiTags ∧
+    SemInv vm' (ts.startTag t vm.enableEsiTags) nth := by
+  have hstack := Vm.handleStartTag_stack h
+  have hinv' := inv.stack.handleStartTag h
+  rw [Vm.handleStartTag_eq] at h
+  simp only [bind, Except.bind] at h
+  split at h
+  · cases h
+  · rename_i ctx' hc
+    simp only [pure, Except.pure, Except.ok.injEq] at h
+    have adds := Vm.execAllWithAttrs_adds _ _ _ _ hc
+    -- the added branches are the activated instructions
+    have hP : ∀ b, (∃ a, ({ vm with stack := vm.stack.addChild t.name } : Vm).Holds
+          ⟨t.attrs, t.ns == .html⟩ (startCtx t vm.enableEsiTags) a b ∧
+        (a ∈ vm.program.entryPoints.addrs ∨
+          (∃ r ∈ ({ vm with stack := vm.stack.addChild t.name } : Vm).parentJumps, a ∈ r.addrs) ∨
+          (∃ r ∈ ({ vm with stack := vm.stack.addChild t.name } : Vm).activeRanges, a ∈ r.addrs))) ↔
+        ∃ a, Act vm.program nth (ts.elemFor t) ts.ancestors a b := by
+      intro b
+      have hholds : ∀ a, ({ vm with stack := vm.stack.addChild t.name } : Vm).Holds
+          ⟨t.attrs, t.ns == .html⟩ (startCtx t vm.enableEsiTags) a b ↔
+          holdsElem vm.program nth (ts.elemFor t) a b := by
+        intro a
+        unfold Vm.Holds Vm.HoldsAt holdsElem Vm.fetch
+        simp only [startCtx, inv.buildState_eq t]
+        constructor
+        · rintro ⟨i, hf, he⟩
+          cases hi : vm.program.instructions[a]? with
+          | none => simp [hi] at hf
+          | some i' =>
+            simp [hi, pure, Except.pure] at hf; subst hf
+            exact ⟨i', rfl, he⟩
+        · rintro ⟨i, hf, he⟩
+          exact ⟨i, by simp [hf, pure, Except.pure], he⟩
+      have hpj : ∀ r, r ∈ ({ vm with stack := vm.stack.addChild t.name } : Vm).parentJumps ↔
+          ∃ S, (ancActs vm.program nth ts.ancestors).head? = some S ∧ ∃ a b, S a b ∧ b.jumps = some r := by
+        intro r
+        rw [addChild_parentJumps]
+        exact parentJumps_sem inv.items r
+      have hact : ∀ r, r ∈ ({ vm with stack := vm.stack.addChild t.name } : Vm).activeRanges ↔
+          ∃ S ∈ ancActs vm.program nth ts.ancestors, ∃ a b, S a b ∧ b.hereditaryJumps = some r := by
+        intro r
+        unfold Vm.activeRanges
+        simp only [addChild_active]
+        rw [inv.active.mem_ranges r, ← AllSem.mem_hj inv.items r]
+        simp
+      simp only [hholds, hpj, hact, Act, actOf]
+      constructor
+      · rintro ⟨a, hh, ha | ⟨r, ⟨S, hS, a', b', hS', hj⟩, ha⟩ | ⟨r, ⟨S, hS, a', b', hS', hj⟩, ha⟩⟩
+        · exact ⟨a, hh, Or.inl ha⟩
+        · exact ⟨a, hh, Or.inr (Or.inl ⟨S, hS, a', b', r, hS', hj, ha⟩)⟩
+        · exact ⟨a, hh, Or.inr (Or.inr ⟨S, hS, a', b', r, hS', hj, ha⟩)⟩
+      · rintro ⟨a, hh, ha | ⟨S, hS, a', b', r, hS', hj, ha⟩ | ⟨S, hS, a', b', r, hS', hj, ha⟩⟩
+        · exact ⟨a, hh, Or.inl ha⟩
+        · exact ⟨a, hh, Or.inr (Or.inl ⟨r, ⟨S, hS, a', b', hS', hj⟩, ha⟩)⟩
+        · exact ⟨a, hh, Or.inr (Or.inr ⟨r, ⟨S, hS, a', b', hS', hj⟩, ha⟩)⟩
+    have adds' := adds.congr hP
+    have hvm' := congrArg Prod.fst h
+    have hms := congrArg Prod.snd h
+    simp only at hvm' hms
+    refine ⟨?_, ?_, hstack.1, hstack.2.1, ?_⟩
+    rotate_left
+    · rw [← hms]
+      simp only [Vm.finish, ExecutionCtx.matchInfos, List.map_map, Function.comp_def, List.map_id']
+      exact adds.sorted (by simp [startCtx])
+    rotate_right
+    · intro i
+      rw [← hms]
+      simp only [Vm.finish, ExecutionCtx.matchInfos, List.map_map, Function.comp_def, List.map_id']
+      rw [adds'.ids i]
+      simp only [startCtx, List.not_mem_nil, false_or]
+      constructor
+      · rintro ⟨b, ⟨a, ha⟩, hi⟩; exact ⟨a, b, ha, hi⟩
+      · rintro ⟨a, b, ha, hi⟩; exact ⟨b, ⟨a, ha⟩, hi⟩
+    · -- the invariant
+      have hw : ctx'.withContent = staysOpen t vm.enableEsiTags := adds.frame.2.2.1
+      have hAll1 : AllSem (vm.stack.addChild t.name).items.reverse (ancActs vm.program nth ts.ancestors) :=
+        AllSem.congr (by
+          have := addChild_items_jumps vm.stack t.name
+          simpa [List.map_reverse] using congrArg List.reverse this.symm) inv.items
+      have hAct1 : ActiveSem (vm.stack.addChild t.name).items (vm.stack.addChild t.name).activeHereditaryJumps := by
+        rw [addChild_active]
+        exact ActiveSem.congr (addChild_items_jumps vm.stack t.name).symm inv.active
+      have hty1 : (vm.stack.addChild t.name).typedChildCounters.isSome = nth := by
+        rw [Stack.addChild_typed_isSome]; exact inv.typed
+      rw [← hvm']
+      unfold Vm.finish
+      rw [hw]
+      rw [startTag_eq] at hinv' ⊢
+      by_cases hso : staysOpen t vm.enableEsiTags = true
+      · simp only [hso, if_true] at hinv' ⊢
+        rw [← hvm'] at hinv'
+        simp only [Vm.finish, hw, hso, if_true] at hinv'
+        refine ⟨hinv', ?_, ?_, ?_⟩
+        · simp only [Stack.pushItem, List.reverse_append, List.reverse_cons, List.reverse_nil,
+            List.nil_append, List.singleton_append, TreeState.ancestors, List.map_cons]
+          have hanc : (TreeState.withChild ts t.name).open.map (·.elem) = ts.ancestors := withChild_ancestors ts t.name
+          rw [hanc]
+          simp only [ancActs]
+          refine ⟨?_, hAll1⟩
+          have hwc : (startCtx t vm.enableEsiTags).withContent = true := by simp [startCtx, hso]
+          constructor
+          · intro r
+            rw [adds'.jumps hwc r]
+            simp only [startCtx, List.not_mem_nil, false_or, Act]
+            constructor
+            · rintro ⟨b, ⟨a, ha⟩, hj⟩; exact ⟨a, b, ha, hj⟩
+            · rintro ⟨a, b, ha, hj⟩; exact ⟨b, ⟨a, ha⟩, hj⟩
+          · intro r
+            rw [adds'.hjumps hwc r]
+            simp only [startCtx, List.not_mem_nil, false_or, Act]
+            constructor
+            · rintro ⟨b, ⟨a, ha⟩, hj⟩; exact ⟨a, b, ha, hj⟩
+            · rintro ⟨a, b, ha, hj⟩; exact ⟨b, ⟨a, ha⟩, hj⟩
+        · exact hAct1.push ctx'.stackItem
+        · simpa [Stack.pushItem] using hty1
+      · have hso' : staysOpen t vm.enableEsiTags = false := by
+          cases hb : staysOpen t vm.enableEsiTags with
+          | false => rfl
+          | true => exact absurd hb hso
+        simp only [hso', Bool.false_eq_true, if_false] at hinv' ⊢
+        rw [← hvm'] at hinv'
+        simp only [Vm.finish, hw, hso', Bool.false_eq_true, if_false] at hinv'
+        refine ⟨hinv', ?_, hAct1, hty1⟩
+        rw [withChild_ancestors]
+        exact hAll1
+
+theorem SemInv.handleEndTag {vm : Vm} {ts : TreeState} {nth : Bool} (inv : SemInv vm ts nth) (name : Bytes) :
+    ∃ vm', vm.handleEndTag name = .ok vm' ∧ vm'.program = vm.program ∧
+      vm'.enableEsiTags = vm.enableEsiTags ∧ SemInv vm' (ts.endTag name) nth := by
+  obtain ⟨s', d, he, inv'⟩ := inv.stack.popUpTo name
+  refine ⟨{ vm with stack := s' }, ?_, rfl, rfl, ?_⟩
+  · simp [Vm.handleEndTag, Vm.execForEndTag, he, bind, Except.bind, pure, Except.pure]
+  · have hty : s'.typedChildCounters.isSome = nth := by
+      rw [Stack.popUpTo_typed_isSome he]; exact inv.typed
+    rcases inv.stack.popUpTo_shape name he with ⟨hi, ha, hts⟩ | ⟨i, hi, hitems, hact, hts⟩
+    · refine ⟨inv', ?_, ?_, hty⟩
+      · simp only [hi, hts]; exact inv.items
+      · simp only [hi, ha]; exact inv.active
+    · refine ⟨inv', ?_, ?_, hty⟩
+      · simp only [hitems, hts, TreeState.ancestors]
+        have hlen := inv.stack.length_eq
+        have hrev : (vm.stack.items.take (vm.stack.items.length - 1 - i)).reverse =
+            vm.stack.items.reverse.drop (i + 1) := by
+          rw [List.reverse_take]; congr 1; omega
+        rw [hrev, List.map_drop]
+        have := ancActs_drop vm.program nth (ts.open.map (·.elem)) (i + 1)
+        rw [this]
+        exact inv.items.drop (i + 1)
+      · simp only [hitems, hact]
+        exact inv.active.pop _
+
+/-- a run with an arbitrary "matching ids" function on the induced tree -/
+def runWith (F : Elem → List Elem → List Nat) (esi : Bool) :
+    TreeState → List Event → Nat → List (Nat × Nat) → List (Nat × Nat)
+  | _, [], _, acc => acc
+  | s, .start t :: rest, ord, acc =>
+    runWith F esi (s.startTag t esi) rest (ord + 1) (acc ++ (F (s.elemFor t) s.ancestors).map fun i => (i, ord))
+  | s, .end_ n :: rest, ord, acc => runWith F esi (s.endTag n) rest ord acc
+
+theorem runAux_eq_runWith (L : Leaf) (sels : List SelList) (esi : Bool) : ∀ (evs : List Event) (s : TreeState) (ord acc),
+    Spec.Css.runAux L sels esi s evs ord acc = runWith (matchingIds L sels) esi s evs ord acc := by
+  intro evs
+  induction evs with
+  | nil => intro s ord acc; rfl
+  | cons e rest ih =>
+    intro s ord acc
+    cases e with
+    | start t => simp only [Spec.Css.runAux, runWith, ih]
+    | end_ n => simp only [Spec.Css.runAux, runWith, ih]
+
+/-- **The VM computes the denotation of its program** (partial correctness, any program): if `F`
+    lists, in increasing order, the ids of the instructions `Act` activates, a VM run that does not
+    panic reports exactly `F` at every start tag. -/
+theorem SemInv.runAux {F : Elem → List Elem → List Nat} {prog : Program} {nth esi : Bool}
+    (hF : ∀ e anc i, i ∈ F e anc ↔ ∃ a b, Act prog nth e anc a b ∧ i ∈ b.matchedIds)
+    (hFs : ∀ e anc, (F e anc).Pairwise (· < ·)) :
+    ∀ (evs : List Event) (vm vm' : Vm) (ts : TreeState) (ord acc res),
+      vm.program = prog → vm.enableEsiTags = esi → SemInv vm ts nth →
+      vm.runAux evs ord acc = .ok (vm', res) → res = runWith F esi ts evs ord acc := by
+  intro evs
+  induction evs with
+  | nil =>
+    intro vm vm' ts ord acc res _ _ _ h
+    simp [Vm.runAux, pure, Except.pure] at h
+    simp [runWith, h.2]
+  | cons e rest ih =>
+    intro vm vm' ts ord acc res hp hesi inv h
+    cases e with
+    | start t =>
+      simp only [Vm.runAux, bind, Except.bind] at h
+      split at h
+      · cases h
+      · rename_i r hr
+        obtain ⟨vm1, ms⟩ := r
+        obtain ⟨hids, hsorted, hp1, he1, inv1⟩ := inv.handleStartTag hr
+        have hms : ms.map (·.matchId) = F (ts.elemFor t) ts.ancestors := by
+          apply eq_of_sorted_of_mem_iff _ _ hsorted (hFs _ _)
+          intro i
+          rw [hids i, hF, hp]
+        have := ih vm1 vm' _ _ _ _ (hp1.trans hp) (he1.trans hesi) (by rw [hesi] at inv1; exact inv1) h
+        rw [this]
+        simp only [runWith]
+        congr 2
+        rw [← hms]
+        simp [List.map_map, Function.comp_def]
+    | end_ n =>
+      obtain ⟨vm1, he, hp1, he1, inv1⟩ := inv.handleEndTag n
+      simp only [Vm.runAux, he, bind, Except.bind] at h
+      have := ih vm1 vm' _ _ _ _ (hp1.trans hp) (he1.trans hesi) inv1 h
+      rw [this]; rfl
 end LolHtml.SelVM
